@@ -1,0 +1,46 @@
+//go:build verif
+
+// Copyright (c) 2026 10X Genomics, Inc. All rights reserved.
+
+package syntax
+
+// Exports of the unexported helpers the grammar actions of grammar.y call, for
+// the external verification harness (property C08, action level).  This file
+// is only compiled with `-tags verif`.
+
+// VerifTryParseFloat32 exposes tryParseFloat32 (the NUM_FLOAT alternative of
+// the float_32 rule); ok is false when it returns an error.
+func VerifTryParseFloat32(s []byte) (v float32, ok bool) {
+	f, err := tryParseFloat32(s)
+	return f, err == nil
+}
+
+// VerifFloat32OfInt is the NUM_INT alternative of the float_32 rule:
+// float32(parseInt(s)) (panics when parseInt does).
+func VerifFloat32OfInt(s []byte) float32 { return float32(parseInt(s)) }
+
+// VerifRoundUpTo exposes roundUpTo.
+func VerifRoundUpTo(value float32, granularity float64) float32 {
+	return roundUpTo(value, granularity)
+}
+
+// VerifUnquote exposes unquote (panics on input it does not expect).
+func VerifUnquote(s []byte) string { return unquote(s) }
+
+// VerifInternUnquote exposes stringIntern.unquote on a fresh intern table.
+func VerifInternUnquote(s []byte) string { return makeStringIntern().unquote(s) }
+
+// VerifMaxArrayDim is the largest value of the arr_list dimension counter
+// (the type of TypeId.ArrayDim).
+func VerifMaxArrayDim() int {
+	var t TypeId
+	t.ArrayDim = -1
+	if t.ArrayDim > 0 {
+		return 0 // unsigned: not the type the model assumes
+	}
+	n := 0
+	for d := t.ArrayDim + 2; d > 0; d = d*2 + 1 {
+		n = int(d)
+	}
+	return n
+}
